@@ -714,3 +714,20 @@ func (c *RefClient) Outstanding() []uint64 {
 	}
 	return r
 }
+
+// Refs returns the resource ids the resource references (hard references only).
+func (r *CRes) Refs() []string {
+	var out []string
+	for _, v := range r.Model {
+		if rid, ok := isRef(v); ok {
+			out = append(out, rid)
+		}
+	}
+	for _, v := range r.Coll {
+		if rid, ok := isRef(v); ok {
+			out = append(out, rid)
+		}
+	}
+	sort.Strings(out)
+	return out
+}
